@@ -164,10 +164,11 @@ def gen_doc(rng, tier):
         page_by = [f"g{l}" for l in range(nlev)]
         keycols = page_by
     elif strategy == "subline":
-        subline_by = ["s0"]
+        # one heading paragraph per page whatever the number of subline_by columns: one reserved line
+        subline_by = ["s0", "s1"] if rng.random() < 0.35 else ["s0"]
         keycols = subline_by
     elif strategy == "subline_page_by":
-        subline_by = ["s0"]
+        subline_by = ["s0", "s1"] if rng.random() < 0.35 else ["s0"]
         page_by = ["g0"]
         keycols = subline_by + page_by
     nrow = rng.randint(2, 30)
@@ -260,7 +261,7 @@ def gen_doc(rng, tier):
         meta.append([t, bool(page_by and pch[i]), bool(subline_by and sch[i])])
     np_eff = True if subline_by else bool(new_page)
     exp = dict(nrow=nrow, additional=additional, np=np_eff, rows=meta, strategy=strategy,
-               skeys=[keyvals[subline_by[0]][i] for i in range(n)] if subline_by else None,
+               skeys=["|".join(keyvals[c][i] for c in subline_by) for i in range(n)] if subline_by else None,
                pkeys=["|".join(keyvals[c][i] for c in page_by) for i in range(n)] if page_by else None)
     return dict(spec=spec, exp=exp)
 
